@@ -127,9 +127,17 @@ static const char *get_response(unsigned int status_code)
 	}
 }
 
+/*
+ * Every connection of the HTTP port, whether it has become a websocket
+ * peer yet or not: the shutdown sequence must find the ones that are
+ * still reading their request.
+ */
+static LIST_HEAD(connection_list);
+
 void free_connection(void *context)
 {
 	struct http_connection *connection = (struct http_connection *)context;
+	list_del(&connection->next_connection);
 
 	struct buffered_reader *br = &connection->br;
 	br->close(br->this_ptr);
@@ -204,7 +212,23 @@ int init_http_connection2(struct http_connection *connection, const struct http_
 	br->writev = reader->writev;
 	br->set_error_handler = reader->set_error_handler;
 
-	return br->read_until(br->this_ptr, CRLF, read_start_line, connection);
+	list_add_tail(&connection->next_connection, &connection_list);
+	int ret = br->read_until(br->this_ptr, CRLF, read_start_line, connection);
+	if (unlikely(ret < 0)) {
+		/* The caller releases a connection that could not be set up. */
+		list_del(&connection->next_connection);
+	}
+	return ret;
+}
+
+void close_all_http_connections(void)
+{
+	struct list_head *item;
+	struct list_head *tmp;
+	list_for_each_safe (item, tmp, &connection_list) {
+		struct http_connection *connection = list_entry(item, struct http_connection, next_connection);
+		free_connection(connection);
+	}
 }
 
 int init_http_connection(struct http_connection *connection, const struct http_server *server, struct buffered_reader *reader, bool is_local_connection)
@@ -214,5 +238,10 @@ int init_http_connection(struct http_connection *connection, const struct http_s
 
 struct http_connection *alloc_http_connection(void)
 {
-	return cjet_malloc(sizeof(struct http_connection));
+	struct http_connection *connection = cjet_malloc(sizeof(*connection));
+	if (likely(connection != NULL)) {
+		/* Not in the list of connections until it is initialised. */
+		INIT_LIST_HEAD(&connection->next_connection);
+	}
+	return connection;
 }
